@@ -23,6 +23,11 @@ BOUNDS = sorted({max(0, min((1 << 64) - 1, (1 << k) + d)) for k in (0, 6, 8, 14,
 
 def gen_varint(rng):
     r = rng.random()
+    if r < 0.12:                        # encode_updated(placeholder, replacement <= placeholder)
+        p = rng.choice(BOUNDS + [rv(rng), rv(rng)])
+        p = min(p, VMAX)
+        q = rng.choice([0, 1, 63, 64, 16383, 16384, p, p // 2, rng.randrange(p + 1)])
+        return [2, p, min(q, p)]
     if r < 0.35:                        # encode
         k = rng.choice([3, 6, 7, 14, 15, 30, 31, 40, 62, 62, 63, 64])
         v = rng.randrange(1 << k)
@@ -41,6 +46,11 @@ def gen_varint(rng):
 
 def fixed_varint(tier):
     out = [[0]]
+    for p in BOUNDS:
+        if p <= VMAX:
+            for q in BOUNDS + [0]:
+                if q <= p:
+                    out.append([2, p, q])
     for v in BOUNDS:
         out.append([1, v])
         if v <= VMAX:
@@ -65,7 +75,9 @@ def hist_varint(cases, outs):
         t = o.split()
         if not t:
             continue
-        if c and c[0] == 0:
+        if c and c[0] == 2:
+            h["encode_updated"] = h.get("encode_updated", 0) + 1
+        elif c and c[0] == 0:
             if t[0] == "1":
                 h["decode_ok"] += 1
                 h["len" + str(int(t[2], 16))] = h.get("len" + str(int(t[2], 16)), 0) + 1
@@ -691,7 +703,7 @@ registry.register("C05", {
     "axioms_allowed": [],
     "components": [
         {"name": "varint", "gen": gen_varint, "fixed": fixed_varint, "quick": 30000, "thorough": 500000,
-         "valid": lambda c: len(c) >= 1 and c[0] in (0, 1) and (all(0 <= b <= 255 for b in c[1:]) if c[0] == 0 else (len(c) == 2 and 0 <= c[1] < 1 << 64)),
+         "valid": lambda c: len(c) >= 1 and c[0] in (0, 1, 2) and (all(0 <= b <= 255 for b in c[1:]) if c[0] == 0 else (len(c) == 2 and 0 <= c[1] < 1 << 64) if c[0] == 1 else (len(c) == 3 and 0 <= c[2] <= c[1] <= VMAX)),
          "nontrivial": lambda case, out: len(case) >= 2,
          "histogram": hist_varint},
         {"name": "frames", "gen": gen_frames, "fixed": fixed_frames, "quick": 60000, "thorough": 600000,
